@@ -349,6 +349,16 @@ Theorem C12_standard_ascii_injective : forall s1 s2 w, roundtrippable s1 = true 
   roundtrippable s2 = true -> std_plain s2 = true ->
   write_std w_standard_text_ascii s1 = Some w -> write_std w_standard_text_ascii s2 = Some w -> s1 = s2.
 Proof. exact (C12_write_standard_injective_plain standard_table w_standard_text_ascii std_opts _ obl_standard_table_ok obl_std_writer_agree). Qed.
+Theorem C12_standard_ascii_roundtrip_opts : forall OW s, roundtrippable s = true -> negid_ok OW s = true -> no_exist s = true ->
+  exists w, write_stdo OW w_standard_text_ascii s = Some w /\\
+            parse_std_opts (cfg_of standard_table false) std_opts (decls s) w = (OK s, decls s) /\\
+            parse_std_opts (cfg_of standard_table true) std_opts [] w = (OK s, decls s).
+Proof. intro OW. exact (C12_standard_roundtrip_opts standard_table w_standard_text_ascii std_opts OW _ obl_standard_table_ok obl_std_writer_agree). Qed.
+Theorem C12_standard_ascii_injective_opts : forall OW s1 s2 w,
+  roundtrippable s1 = true -> negid_ok OW s1 = true -> no_exist s1 = true ->
+  roundtrippable s2 = true -> negid_ok OW s2 = true -> no_exist s2 = true ->
+  write_stdo OW w_standard_text_ascii s1 = Some w -> write_stdo OW w_standard_text_ascii s2 = Some w -> s1 = s2.
+Proof. intro OW. exact (C12_write_standard_injective_opts standard_table w_standard_text_ascii std_opts OW _ obl_standard_table_ok obl_std_writer_agree). Qed.
 (* outside the plain fragment the writer's output is NOT read back by the parser (model level; the
    implementation agrees, see the standard_ascii_writer_to_parser counts): ~ a = b is written "a != b" *)
 Example C12_standard_negid_not_roundtrip :
@@ -458,7 +468,9 @@ def _run(chk, args) -> int:
                     'gen: C12_polish_argstr_roundtrip',
                     'C12_standard_roundtrip_plain', 'C12_write_standard_injective_plain',
                     'gen: C12_standard_ascii_roundtrip', 'gen: C12_standard_ascii_injective',
-                    'gen: C12_standard_negid_not_roundtrip']
+                    'gen: C12_standard_negid_not_roundtrip',
+                    'C12_standard_roundtrip_opts', 'C12_write_standard_injective_opts', 'C12_write_stdo_default',
+                    'gen: C12_standard_ascii_roundtrip_opts', 'gen: C12_standard_ascii_injective_opts']
     rng = random.Random(args.seed)
     sents = []
     seen = set()
@@ -645,6 +657,12 @@ def writer_option_cases(chk: Check):
     sents += [['B', 'Conjunction', atoms[3], atoms[4]], ['B', 'Conjunction', atoms[4], atoms[3]],
               ['Q', 'Universal', [0, 0], ['P', H3, [x, b, a]]], ['Q', 'Universal', [0, 0], ['P', H3, [a, b, x]]],
               ['Q', 'Existential', [0, 0], ['P', G4, [a, x, c, x]]], ['Q', 'Existential', [0, 0], ['P', G4, [a, x, c, d]]]]
+    # negated identities: written 'a != b' under identity_infix (not read back by the parser), '~a = b' / '~=ab' without
+    negid = [['U', 'Negation', atoms[10]], ['U', 'Negation', ['U', 'Negation', atoms[11]]],
+             ['B', 'Conjunction', ['U', 'Negation', atoms[10]], atoms[3]],
+             ['Q', 'Universal', [0, 0], ['U', 'Negation', ['P', 'Identity', [x, a]]]]]
+    sents += negid
+    negid_keys = {json.dumps(j) for j in negid}
     jobs = []
     for mi in (0, 2, 3, 4, 5):
         for ii in (True, False):
@@ -652,6 +670,25 @@ def writer_option_cases(chk: Check):
                 jobs.append(dict(notation='standard', format='text', dialect='ascii', sents=sents, parse={},
                                  opts=dict(max_infix=mi, identity_infix=ii, drop_parens=dp)))
     real = probe_json('probe_parse.py', ['write'], stdin=json.dumps(jobs), timeout=1800)
+    # the Coq model of the writer under the same options (Lang/WriteStd.v write_stdo), which
+    # C12_standard_roundtrip_opts / C12_write_standard_injective_opts are about
+    exprs = [('map (wso_case {| wo_drop := %s; wo_idinfix := %s; wo_maxinfix := %d |} w_standard_text_ascii) [' % (
+        str(job['opts']['drop_parens']).lower(), str(job['opts']['identity_infix']).lower(), job['opts']['max_infix'])
+        + '; '.join(pl.coq_sent(j) for j in sents) + ']') for job in jobs]
+    model = pl.eval_string_lists(PID, header(), exprs, name='Opt', shard=4)
+    for job, rr, mm in zip(jobs, real, model):
+        if len(mm) != len(sents):
+            raise MachineryError(f'Opt {job["opts"]}: {len(mm)} answers')
+        for j, r, m in zip(sents, rr, mm):
+            m_w = None if m == 'WERR' else [int(x_, 2) for x_ in m.split()]
+            r_w = None if isinstance(r.get('written'), str) else r.get('written')
+            chk.count('writer_options_model', 'same' if r_w == m_w else 'differs')
+            if r_w != m_w:
+                chk.violation('standard/text/ascii:options:writer-mismatch',
+                              f'standard writer with {job["opts"]} on {pl.ser_json(j)}: implementation '
+                              f'{render_cps(r.get("written"))!r}, model {render_cps(m_w)!r}',
+                              dict(kind='roundtrip', notation='standard', format='text', dialect='ascii', opts=job['opts'],
+                                   sentence=j, expect_written=m_w))
     for job, rr in zip(jobs, real):
         seen = {}
         for j, r in zip(sents, rr):
@@ -668,6 +705,9 @@ def writer_option_cases(chk: Check):
                               f'{seen[tuple(w)]} and {ser} both render to {render_cps(w)!r} with writer options {job["opts"]}',
                               dict(rep, other=seen[tuple(w)], expect_distinct=True))
             seen[tuple(w)] = ser
+            if json.dumps(j) in negid_keys and job['opts']['identity_infix']:
+                chk.count('writer_options_negid_infix(observation)', 'ok' if r.get('parsed_auto') == 'OK ' + ser else 'not-read-back')
+                continue
             if r.get('parsed_auto') != 'OK ' + ser:
                 chk.violation('standard/text/ascii:options:roundtrip',
                               f'{ser} written with options {job["opts"]} as {render_cps(w)!r} parses to {str(r.get("parsed_auto"))[:120]!r}',
